@@ -50,3 +50,30 @@ def m_c07_procmacro_special(f, rec):
     want = (rec.get("detail") or {}).get("want") or []
     rest = want[1] if len(want) > 1 else ""
     return "`" in rest or "f'" in rest or 'f"' in rest
+
+
+def m_c14_with_trailing_blank_or_comment(f, rec):
+    """the whole difference is: blank/comment lines that follow a with! block were appended to its
+    captured body (possibly defeating the dedent)"""
+    import ast
+    import textwrap
+
+    if rec["clause"] != "field_values":
+        return False
+    d = (rec.get("detail") or {}).get("diff") or {}
+    a, b = d.get("impl"), d.get("ref")
+    if not a or not b or a[1] != "Constant" or b[1] != "Constant" or not a[8].startswith("value=str:"):
+        return False
+    try:
+        va, vb = ast.literal_eval(a[8][len("value=str:"):]), ast.literal_eval(b[8][len("value=str:"):])
+    except Exception:  # noqa: BLE001
+        return False
+    parts = rec["case"].get("parts") or []
+    if not any(p.lstrip().startswith("with!") or "\n    with!" in p for p in parts):
+        return False
+    lines_a = va.split("\n")
+    # drop trailing blank / comment-only lines, then compare after dedent
+    while lines_a and (not lines_a[-1].strip() or lines_a[-1].strip().startswith("#")):
+        lines_a.pop()
+    core = textwrap.dedent("\n".join(lines_a) + "\n")
+    return core == vb
